@@ -334,6 +334,22 @@ def run_job(job, packages, known, replay_dir):
                samples=[], max_abs=0, stub_assumptions=[])
     timeout_ms = int(job.get('timeout_s', 120) * 1000)
     max_paths = job.get('max_paths', 20000)
+    if getattr(fn, 'custom', False):
+        # multi-copy / counting obligations build their own queries from the collected paths
+        try:
+            fn(job, packages, rec)
+        except NeedConcrete as e:
+            rec['errors'].append('encoder: %s' % e)
+            rec['trace'] = traceback.format_exc()[-1500:]
+        except Exception as e:
+            rec['errors'].append('harness exception %s: %s' % (type(e).__name__, e))
+            rec['trace'] = traceback.format_exc()[-2500:]
+        for p in packages.values():
+            rec['forked_sites'] += sorted('%s:%s' % s for s in p.interp.forked_sites)
+            for k, v in p.interp.kernels_used.items():
+                rec['kernels'][p.pkg + '.' + k] = rec['kernels'].get(p.pkg + '.' + k, 0) + v
+        rec['wall_s'] = round(time.time() - t0, 3)
+        return rec
     stack = [[]]
     goal_names = {}
     stop = False            # one reproduced violation per harness instance is enough: stop exploring it
@@ -447,6 +463,57 @@ def run_job(job, packages, known, replay_dir):
     return rec
 
 
+def collect_paths(thunk, packages, rec, max_paths=5000):
+    """run thunk(env) on every path; returns [(path condition incl. side constraints and while-exit assumptions,
+    value, coins)] -- coin variable names are identical on all paths because the draw order is path independent"""
+    out = []
+    stack = [[]]
+    while stack:
+        prefix = stack.pop()
+        STORE.reset()
+        for p in packages.values():
+            p.interp.reset_run()
+        ctx = Ctx(prefix)
+        Ctx.cur = ctx
+        env = SymEnv(ctx, packages)
+        try:
+            val = thunk(env)
+        except Infeasible:
+            stack.extend(ctx.new)
+            continue
+        finally:
+            Ctx.cur = None
+        stack.extend(ctx.new)
+        rec['paths'] += 1
+        rec['queries'] += ctx.nq
+        rec['solver_s'] += ctx.tq
+        if rec['paths'] > max_paths:
+            raise PathLimit()
+        pc = list(STORE.side) + list(ctx.pc)
+        assumed = []
+        for p in packages.values():
+            for (what, where, cond) in p.interp.assumed:
+                assumed.append(bexpr(cond))
+                rec['stub_assumptions'].append('%s at %s:%s' % (what, where[0], where[1]))
+        events = [ev for p in packages.values() for ev in p.interp.events]
+        out.append(dict(pc=pc, assumed=assumed, value=val, coins=list(STORE.coins), events=events))
+    return out
+
+
+def solve_query(rec, name, constraints, timeout_s, expect):
+    """one obligation of a custom job: expect in ('unsat', 'sat')"""
+    s, r, dt = _solve(constraints, None, int(timeout_s * 1000))
+    rec['queries'] += 1
+    rec['solver_s'] += dt
+    ob = dict(name=name, verdict='unsat' if r == expect else ('unknown' if r == 'unknown' else 'sat'), queries=1, folded=0, time_s=dt, raw=r, expect=expect)
+    rec['obligations'].append(ob)
+    if r == 'unknown':
+        rec['inconclusive'].append(dict(goal=name, reason=s.reason_unknown(), time_s=round(dt, 2)))
+    if len(rec['samples']) < 2:
+        rec['samples'].append(dict(harness=rec['label'], goal=name, verdict=r, expected=expect, bound=rec['params']))
+    return s, r
+
+
 def match_known(known, job, gname, tags):
     for kf in known:
         if kf.get('status', 'open') != 'open':
@@ -518,6 +585,8 @@ def judge(cex, seeds=48):
     import warnings
     warnings.filterwarnings('ignore')
     mod = importlib.import_module('harness.' + cex['harness'][0])
+    if cex.get('kind') and hasattr(mod, 'custom_judge'):
+        return mod.custom_judge(cex)
     fn = getattr(mod, cex['harness'][1])
     uses_rng = getattr(fn, 'uses_rng', False)
     variation = getattr(fn, 'variation_goals', {})
